@@ -9,15 +9,122 @@ OPTS = "iroh::endpoint::bind::BindOpts"
 def check(F, rep):
     rep.clause("symmetry: a DuplicateDefaultAddr rejection depends on the *new* bind's default-route flag as well as on the scan of the existing binds (otherwise [default, non-default] is rejected while [non-default, default] is accepted); the flag stored for later scans is the same predicate; each address family scans with its own family's predicate")
     rep.undecided("full enumeration of bind sequences (values); InvalidPrefixLength is decided by ipnet's constructor")
-    f = get_fn(F, rep, FN)
+    from ..inline import inlined
+    from ..analysis import reachable_fs
+    f0 = get_fn(F, rep, FN)
+    f = inlined(F, f0)          # the scan may live in a private helper
     du = defuse(f)
     errs = [(b, i, rv) for b, i, rv in aggregates_in(f, f.reachable(0), ERR) if rv["variant"] == "DuplicateDefaultAddr"]
     rep.exact("symmetry", "DuplicateDefaultAddr constructions", len(errs), 2)
-    anys = find_calls(f, "core::iter::traits::iterator::Iterator::any")
-    rep.exact("symmetry", "scans of the existing transports (Iterator::any)", len(anys), 2)
+
+    def closure_fn(o):
+        l = op_base(o)
+        if l is None:
+            return None, {}
+        m = re.search(r"closure@[^:]+:(\d+):(\d+)", str(f.locals[l]))
+        if not m:
+            return None, {}
+        cands = [g for g in F.find(r"\{closure#\d+\}$") if g.kind == "Closure" and g.file == f0.file and g.line == int(m.group(1))]
+        caps = {}
+        for b_, i_, st in f.stmts():
+            if st["k"] == "a" and st["lhs"] == {"l": l} and st["rv"]["k"] == "agg" and cands:
+                for o2, name in zip(st["rv"]["ops"], cands[0].upvars):
+                    # captured literal bool (through a reference to a single-assignment local)
+                    l2 = op_base(o2)
+                    for _ in range(4):
+                        ds = [s2["rv"] for b2, i2, s2 in f.stmts() if s2["k"] == "a" and s2["lhs"] == {"l": l2}]
+                        if len(ds) == 1 and ds[0]["k"] == "ref" and not ds[0]["p"].get("p"):
+                            l2 = ds[0]["p"]["l"]
+                        elif len(ds) == 1 and ds[0]["k"] == "use" and ds[0]["o"]["k"] in ("copy", "move") and not ds[0]["o"]["p"].get("p"):
+                            l2 = ds[0]["o"]["p"]["l"]
+                        else:
+                            if len(ds) == 1 and ds[0]["k"] == "use" and ds[0]["o"]["k"] == "const" and ds[0]["o"].get("v") in ("true", "false"):
+                                caps[name] = ds[0]["o"]["v"] == "true"
+                            break
+        return (cands[0] if len(cands) == 1 else None), caps
+
+    def pred_calls(g, caps):
+        """method names called by predicate closure `g`, given captured literal bools"""
+        removed = set()
+        for b_ in g.reachable(0):
+            t_ = g.blocks[b_]["t"]
+            if t_["k"] != "switch":
+                continue
+            l = op_local(t_["d"])
+            dpl = t_["d"].get("p") if t_["d"]["k"] in ("copy", "move") else None
+            if dpl is not None and dpl["l"] == 1 and dpl.get("p"):
+                names = [e[2] for e in dpl["p"] if e[0] == "f"]
+                if names and names[-1] in caps:
+                    val = 1 if caps[names[-1]] else 0
+                    explicit = [int(v_) for v_, _ in t_["targets"]]
+                    for v_, tb in t_["targets"]:
+                        if int(v_) != val:
+                            removed.add((b_, tb))
+                    if val in explicit:
+                        removed.add((b_, t_["otherwise"]))
+                continue
+            for st in g.blocks[b_]["s"] + [s2 for bb in g.blocks for s2 in bb["s"]]:
+                if st["k"] == "a" and st["lhs"] == {"l": l} and st["rv"]["k"] == "use" and st["rv"]["o"]["k"] in ("copy", "move"):
+                    pl = st["rv"]["o"]["p"]
+                    names = [e[2] for e in pl.get("p", []) if e[0] == "f"]
+                    if pl["l"] == 1 and names and names[-1] in caps:
+                        val = 1 if caps[names[-1]] else 0
+                        for v_, tb in t_["targets"]:
+                            if int(v_) != val:
+                                removed.add((b_, tb))
+                        if val in [int(v_) for v_, _ in t_["targets"]]:
+                            removed.add((b_, t_["otherwise"]))
+                    break
+        reach = reachable_fs(g, 0, removed_edges=removed)
+        return {callee_names(t_)[0].rsplit("::", 1)[-1] for b_, t_ in g.calls() if b_ in reach}
+
+    # existential scans over self.transports: iter() [.filter(p)]* .any(q)
+    scans = []
+    for b, t in find_calls(f, "core::iter::traits::iterator::Iterator::any"):
+        preds = set()
+        g, caps = closure_fn(t["args"][1])
+        ok = g is not None
+        if g is not None:
+            rep.fn(g)
+            preds |= pred_calls(g, caps)
+        l = op_base(t["args"][0])
+        src_ok = False
+        for _ in range(6):
+            dc = def_call(f, l) if l is not None else None
+            if dc is None:
+                # `&mut iter` reborrow
+                ds = [s2["rv"] for b2, i2, s2 in f.stmts() if s2["k"] == "a" and s2["lhs"] == {"l": l}]
+                if len(ds) == 1 and ds[0]["k"] == "ref" and not ds[0]["p"].get("p"):
+                    l = ds[0]["p"]["l"]
+                    continue
+                break
+            if call_matches(dc[1], r"Iterator::filter$"):
+                g2, caps2 = closure_fn(dc[1]["args"][1])
+                if g2 is None:
+                    # a method path used as predicate: `.filter(TransportConfig::is_user_defined)`
+                    o2 = dc[1]["args"][1]
+                    nm = str(o2.get("fn") or o2.get("def") or f.locals[op_base(o2)] if (o2["k"] == "const" or op_base(o2) is not None) else "")
+                    m2 = re.search(r"(is_\w+)", nm)
+                    if m2:
+                        preds.add(m2.group(1))
+                    else:
+                        ok = False
+                else:
+                    rep.fn(g2)
+                    preds |= pred_calls(g2, caps2)
+                l = op_base(dc[1]["args"][0])
+                continue
+            if call_matches(dc[1], r"slice::.*iter$|Vec::iter$|::iter$|IntoIterator::into_iter$"):
+                x = copy_sources(f, op_base(dc[1]["args"][0]))
+                src_ok = bool(x) and all(y[0] == "arg" and y[1] == 1 and tuple(y[2])[-1:] == ("transports",) for y in x)
+            break
+        scans.append((b, t, ok and src_ok, tuple(sorted(p for p in preds if p.startswith("is_")))))
+    rep.exact("symmetry", "existential scans of the existing transports (iter()[.filter(..)].any(..))", len(scans), 2)
+    other_scans = [callee_names(t)[0] for b, t in f.calls() if call_matches(t, r"Iterator::(find_map|find|position|all|count|fold|try_fold|next)$") and any(True for _ in [0]) and _derives_from_transports(f, t)]
+    rep.ob("symmetry", not other_scans, site(f), "the existing binds are consulted only through any(..) - an adapter that stops at the first match of a weaker predicate (find_map, find, position, next ...) would make the answer depend on the order of earlier binds: %s" % other_scans, skey(F, f, "scan-kind"))
     idr = find_calls(f, OPTS + "::is_default_route")
-    rep.floor("symmetry", "reads of opts.is_default_route()", len(idr), 2)
-    any_tests = {b: call_result_tests(f, b, family="bool")[0] for b, t in anys}
+    rep.floor("symmetry", "reads of opts.is_default_route()", len(idr), 1)
+    any_tests = {b: call_result_tests(f, b, family="bool")[0] for b, t, ok, preds in scans}
     idr_tests = {b: call_result_tests(f, b, family="bool")[0] for b, t in idr}
     fams = []
     for b, i, rv in errs:
@@ -27,28 +134,46 @@ def check(F, rep):
         rep.ob("symmetry", len(gd) >= 1, site(f, b),
                "rejection requires the new bind itself to be a default route (opts.is_default_route() true)%s" % ("" if gd else ": today the scan alone decides, so adding a non-default bind after a default one fails with DuplicateDefaultAddr while the reverse order is accepted"),
                skey(F, f, "dup-requires-new-default:%d" % len(fams)))
-        # which family predicate does the scan's closure use
         if ga:
-            at = [t for ab, t in anys if ab == ga[0]][0]
-            names = set()
-            for g in F.tree(f):
-                if g is f:
-                    continue
-                for o in du.origin_facts(op_base(at["args"][1]), kinds=("agg",)):
-                    if o[4].get("ak") == "closure" and o[4].get("def") == g.path:
-                        names |= {callee_names(t)[0].rsplit("::", 1)[-1] for _, t in g.calls()}
-            fams.append(tuple(sorted(names)))
+            sc = [x for x in scans if x[0] == ga[0]][0]
+            fams.append(sc[3] if sc[2] else ("?",))
     rep.ob("table_agreement", sorted(fams) == [("is_ipv4_default", "is_user_defined"), ("is_ipv6_default", "is_user_defined")], site(f),
-           "the two scans use the IPv4 resp. IPv6 default predicate, each with is_user_defined: %s" % fams, skey(F, f, "family-predicates"))
+           "the two scans range over self.transports with the IPv4 resp. IPv6 default predicate, each conjoined with is_user_defined: %s" % fams, skey(F, f, "family-predicates"))
     # arms: V4 error in the V4 arm etc. -> the stored flag
     cfgs = [(b, i, rv) for b, i, rv in aggregates_in(f, f.reachable(0), "iroh::socket::transports::ip::IpConfig") or aggregates_in(f, f.reachable(0))]
     ipc = [(b, i, rv) for b, i, rv in aggregates_in(f, f.reachable(0)) if rv["adt"] == "iroh::socket::transports::ip::Config"]
     rep.exact("symmetry", "IpConfig constructions", len(ipc), 2)
     for b, i, rv in ipc:
         s_ = operand_sources(f, rv["ops"][rv["fields"].index("is_default")], follow=True)
-        rep.ob("symmetry", s_ == {("call", OPTS + "::is_default_route", ())}, site(f, b), "IpConfig::%s stores opts.is_default_route() as its default flag; sources %s" % (rv["variant"], sorted(map(str, s_))), skey(F, f, "stored-flag:" + rv["variant"]))
+        rep.ob("symmetry", bool(s_) and all(x[0] == "call" and x[1] == OPTS + "::is_default_route" for x in s_), site(f, b), "IpConfig::%s stores opts.is_default_route() as its default flag; sources %s" % (rv["variant"], sorted(map(str, s_))), skey(F, f, "stored-flag:" + rv["variant"]))
     # is_default_route semantics: explicit flag, else prefix_len == 0
     g = get_fn(F, rep, OPTS + "::is_default_route")
     ft = field_tests(g, "is_default_route")
     pl = find_calls(g, OPTS + "::prefix_len")
     rep.ob("symmetry", len(ft) == 1 and len(pl) == 1 and requires_failure(g, pl[0][0], ft), site(g), "is_default_route(): explicit flag if set, otherwise prefix_len() == 0", skey(F, g, "implicit-default"))
+
+
+def _derives_from_transports(f, t):
+    """the iterator consumed by call `t` is (a chain over) self.transports.iter()"""
+    l = op_base(t["args"][0]) if t["args"] else None
+    for _ in range(8):
+        if l is None:
+            return False
+        dc = def_call(f, l)
+        if dc is None:
+            ds = [s2["rv"] for b2, i2, s2 in f.stmts() if s2["k"] == "a" and s2["lhs"] == {"l": l}]
+            if len(ds) == 1 and ds[0]["k"] == "ref" and not ds[0]["p"].get("p"):
+                l = ds[0]["p"]["l"]
+                continue
+            if len(ds) == 1 and ds[0]["k"] == "use" and ds[0]["o"]["k"] in ("copy", "move") and not ds[0]["o"]["p"].get("p"):
+                l = ds[0]["o"]["p"]["l"]
+                continue
+            return False
+        if call_matches(dc[1], r"Iterator::(filter|map|filter_map|rev|skip|take|chain|enumerate|peekable)$"):
+            l = op_base(dc[1]["args"][0])
+            continue
+        if call_matches(dc[1], r"::iter$|::iter_mut$|IntoIterator::into_iter$"):
+            x = copy_sources(f, op_base(dc[1]["args"][0]))
+            return bool(x) and all(y[0] == "arg" and y[1] == 1 and tuple(y[2])[-1:] == ("transports",) for y in x)
+        return False
+    return False
